@@ -5,7 +5,11 @@ package main
 // every return path and never twice — a second close is a host panic ("close of closed channel")
 // instead of the documented return value (added after seeded change C05-2).
 
-import "golang.org/x/tools/go/cfg"
+import (
+	"strings"
+
+	"golang.org/x/tools/go/cfg"
+)
 
 func init() {
 	if p := registry["C05"]; p != nil {
@@ -14,9 +18,29 @@ func init() {
 			run(r)
 			reflectKindRule(r, "R-6", "internal/runtime")
 			c05WatcherRule(r)
+			c05FaultClassification(r)
 		}
+		p.explain += " R-9: fault classification (C01 R-5, re-used): every opcode whose handler contains a Go operation that can raise a run-time panic the language defines is listed in the panic classifier — otherwise the fault is a fatal error, i.e. a host panic."
 		p.explain += " R-6: in every clause of a switch on X.Kind() in package runtime, the kind-restricted reflect methods called on X are defined for every kind the clause lists; an unclassified reflect panic there is a fatal error, i.e. a host panic. R-7: the run driver closes the watcher's stop channel on every return path and never twice."
 	}
+}
+
+// c05FaultClassification imports the R-5 obligations of C01 (shift-count findings excluded: a wrong
+// result, not a host panic).
+func c05FaultClassification(r *Run) {
+	c01 := registry["C01"]
+	if !r.Anchor("R-9", "the C01 rule set (fault classification)", c01 != nil) {
+		return
+	}
+	sub := NewRun("C01", r.Tier, r.P)
+	safeRun(sub, c01.run)
+	for _, o := range sub.Obls {
+		if o.Rule == "R-5" && !strings.HasSuffix(o.Construct, ":shift-count-sign") {
+			o.Rule = "R-9"
+			r.Obls = append(r.Obls, o)
+		}
+	}
+	r.Require("R-9", 30)
 }
 
 func c05WatcherRule(r *Run) {
